@@ -81,7 +81,7 @@ func H_C20_writethrough() {
 }
 
 //verif:witness H_C20_concurrent end
-//verif:bound C20 all concurrent callers: 3 goroutines x 1 call through one sync logger to a console (slow stream) or file appender, pre-emption at every visible operation (atomics, mutexes, file writes, yields) with at most 2 (thorough: 3) pre-emptive switches; immediately after each call returns, its complete line must already be in the target
+//verif:bound C20 all concurrent callers: 3 goroutines x 1 call through one sync logger to a console (slow stream) or file appender, pre-emption at every visible operation (atomics, mutexes, file writes, yields) with at most 2 (thorough: 4) pre-emptive switches; immediately after each call returns, its complete line must already be in the target
 //verif:engine-only H_C20_concurrent
 
 // H_C20_concurrent: acknowledged means written, also when calls overlap.
@@ -89,7 +89,7 @@ func H_C20_concurrent() {
 	vOpt("loop", 400)
 	vOpt("schedall", 1)
 	if vTier() > 0 {
-		vOpt("preempt", 3)
+		vOpt("preempt", 4)
 	} else {
 		vOpt("preempt", 2)
 	}
